@@ -89,14 +89,18 @@ func (w *world) extend(t interface{ Fatalf(string, ...any) }, parent model.RawHe
 
 // source is the scripted block source.
 type source struct {
-	w        *world
-	mu       sync.Mutex
-	fates    []string // consumed one per RequestBlock call, then "serve"
-	requests []model.Hash
-	fateLog  []string
-	probe    func(bitcoin.Hash32) string // diagnostic: state of the manager at request time
-	cancelDelay time.Duration           // how long the node takes to answer a cancel
-	hold     chan struct{} // when non-nil, served blocks wait for it (to keep a request pending)
+	w           *world
+	mu          sync.Mutex
+	fates       []string // consumed one per RequestBlock call, then "serve"
+	requests    []model.Hash
+	fateLog     []string
+	probe       func(bitcoin.Hash32) string // diagnostic: state of the manager at request time
+	cancelDelay time.Duration               // how long the node takes to answer a cancel
+	hold        chan struct{}               // when non-nil, served blocks wait for it (to keep a request pending)
+	// holdHash: the next request for that block signals arrived and waits for holdCh (once)
+	holdHash *model.Hash
+	holdCh   chan struct{}
+	arrived  chan struct{}
 	wg       sync.WaitGroup
 }
 
@@ -153,6 +157,11 @@ func (s *source) RequestBlock(ctx context.Context, hash bitcoin.Hash32, handler 
 	}
 	s.fateLog = append(s.fateLog, fate+extra)
 	hold := s.hold
+	if fate != "nonode" && s.holdHash != nil && *s.holdHash == model.Hash(hash) {
+		hold = s.holdCh
+		s.holdHash = nil
+		close(s.arrived)
+	}
 	s.mu.Unlock()
 	if fate == "nonode" {
 		return nil, bitcoin_reader.ErrNodeNotAvailable
@@ -517,6 +526,85 @@ func TestProp_C05_trigger(t *testing.T) {
 		}
 		k.Op("L=%d start=%d batches=%v fates=%v", L, start, sizes, fates)
 		k.NonTrivial = true
+		k.Done()
+	})
+}
+
+const ruleWaves = "the production trigger path with triggers spread over SUCCESSIVE rounds: startup delay ended through the verif hook; 1..4 waves, each: the block source holds the request for a drawn block of the round in progress (any block from the round's first to the tip that round walks to), and while it is pending 1..3 new best-chain headers arrive followed by TriggerBlockSynchronize, then the request is released - so the first wave's trigger falls into the first round, the second wave's into the follow-up round, the third into the round after that; block-source failures drawn as in the round leg; oracle at quiescence: every best-chain block from the start height to the final tip was processed exactly once in strictly ascending contiguous height order over all rounds (a lost trigger shows as a stall: bounded wait of 20 s); non-trivial = two or more waves; distinct = (initial length, start, wave sizes, hold heights, fates)"
+
+func TestProp_C05_waves(t *testing.T) {
+	col := evid.For("C05", "waves", ruleWaves)
+	rapid.Check(t, func(t *rapid.T) {
+		k := col.NewCase()
+		ctx := vt.Ctx()
+		w := newWorld()
+		L := rapid.IntRange(1, 8).Draw(t, "length")
+		chain := w.extend(t, genesis, 0, L, 0x1d00ffff)
+		start := rapid.IntRange(1, L).Draw(t, "start")
+		var fates []string
+		for i := rapid.IntRange(0, 2).Draw(t, "failures"); i > 0; i-- {
+			fates = append(fates, rapid.SampledFrom([]string{"nonode", "drop", "wrong", "serve"}).Draw(t, "fate"))
+		}
+		r := newRig(w, start, fates)
+		defer r.close()
+		all := append([]*blk{}, chain...) // all[h-1] is the block at height h
+		setHold := func(height int) (chan struct{}, chan struct{}) {
+			h := all[height-1].header.Hash()
+			ch, arrived := make(chan struct{}), make(chan struct{})
+			r.src.mu.Lock()
+			r.src.holdHash, r.src.holdCh, r.src.arrived = &h, ch, arrived
+			r.src.mu.Unlock()
+			return ch, arrived
+		}
+		waves := rapid.IntRange(1, 4).Draw(t, "waves")
+		roundFirst := start // first block of the round in progress
+		total := L
+		holdAt := rapid.IntRange(roundFirst, total).Draw(t, "hold")
+		release, arrived := setHold(holdAt)
+		r.nm.VerifMarkStartupDelayComplete(ctx) // also triggers the first round
+		var desc []string
+		for wv := 0; wv < waves; wv++ {
+			select {
+			case <-arrived:
+			case <-time.After(20 * time.Second):
+				t.Fatalf("synchronisation stalled before wave %d: the request for height %d never came; processed %v (L=%d start=%d waves so far %v fates=%v)", wv+1, holdAt, r.processedOrder(), L, start, desc, fates)
+			}
+			n := rapid.IntRange(1, 3).Draw(t, "batch")
+			more := w.extend(t, all[total-1].header, total, n, 0x1d00ffff)
+			all = append(all, more...)
+			roundFirst = total + 1 // the round in progress walks to the old tip; the next one starts above it
+			total += n
+			desc = append(desc, fmt.Sprintf("hold@%d+%d", holdAt, n))
+			r.nm.TriggerBlockSynchronize(ctx)
+			prevRelease := release
+			if wv+1 < waves {
+				holdAt = rapid.IntRange(roundFirst, total).Draw(t, "hold")
+				release, arrived = setHold(holdAt)
+			}
+			close(prevRelease)
+		}
+		want := []int{}
+		for h := start; h <= total; h++ {
+			want = append(want, h)
+		}
+		deadline := time.Now().Add(20 * time.Second)
+		for {
+			got := r.processedOrder()
+			if len(got) >= len(want) {
+				time.Sleep(5 * time.Millisecond)
+				break
+			}
+			if time.Now().After(deadline) {
+				t.Fatalf("synchronisation stalled: processed heights %v, expected %v (L=%d start=%d waves=%v fates=%v)", got, want, L, start, desc, fates)
+			}
+			time.Sleep(300 * time.Microsecond)
+		}
+		r.nm.Stop(ctx)
+		if got := r.processedOrder(); fmt.Sprint(got) != fmt.Sprint(want) {
+			t.Fatalf("blocks processed at heights %v over all rounds, expected %v (L=%d start=%d waves=%v fates=%v)", got, want, L, start, desc, fates)
+		}
+		k.Op("L=%d start=%d waves=%v fates=%v", L, start, desc, fates)
+		k.NonTrivial = waves >= 2
 		k.Done()
 	})
 }
